@@ -72,7 +72,7 @@ var c02Cfgs = []c02Cfg{
 // `__esModule` (an interop marker esbuild adds to cjs/iife output) is ignored.
 func normSurface(s *string) string {
 	if s == nil {
-		return "<nil>"
+		return ""
 	}
 	var keep []string
 	for _, p := range strings.Split(*s, ";") {
